@@ -413,4 +413,81 @@ theorem remembering_login_accepts_stale :
     [65, 65, 85, 104, 87, 70, 66, 90, 66, 50, 46, 119, 89, 0], by decide +kernel⟩
 
 
+open Login in
+/-- whatever the stored hash is (any bytes: salt positions ≥ 0x80, non-alphabet, damaged), a login / password check
+answers `ok` only if re-hashing the candidate under the stored hash gives the stored hash; a panic of the check
+(`fault`) is never an acceptance. -/
+theorem login_accept_only_if_verifies (st : Store) (u pw : List Nat)
+    (h : (step st (Op.login u pw)).2 = Out.ok) : ∃ g, lookup st u = some g ∧ Fcrypt pw g = .ok g := by
+  apply (login_iff_current_hash st u pw).mp
+  simp only [step] at h
+  cases hq : loginQuery st u pw with
+  | error e => rw [hq] at h; simp [ofBool] at h
+  | ok b => cases b with
+    | true => rfl
+    | false => rw [hq] at h; simp [ofBool] at h
+
+open Login in
+/-- a stored hash with a byte ≥ 0x80 in a salt position verifies nothing: every check of it panics. -/
+theorem unverifiable_hash_never_accepts (st : Store) (u pw g : List Nat) (c0 c1 : Nat) (hl : lookup st u = some g)
+    (h0 : g[0]? = some c0) (h1 : g[1]? = some c1) (hi : 128 ≤ c0 ∨ 128 ≤ c1) :
+    (step st (Op.login u pw)).2 = Out.fault := by
+  have hp : ∃ e, Fcrypt pw g = .error e := by
+    rw [fcrypt_panics_iff]
+    rintro ⟨s0, s1, e0, e1, l0, l1⟩
+    rw [h0] at e0; cases e0; rw [h1] at e1; cases e1
+    have : ∀ c, 128 ≤ c → ¬ saltChar c < 128 := by intro c hc; unfold saltChar; split <;> omega
+    rcases hi with hi | hi
+    · exact this _ hi l0
+    · exact this _ hi l1
+  obtain ⟨e, he⟩ := hp
+  simp [step, loginQuery, hl, CheckPasswd, he, bind, Except.bind, ofBool]
+
+open Login in
+/-- ChangePasswd that does not succeed — wrong old password, or a check that panics — leaves the store unchanged. -/
+theorem changePasswd_unauthorised_leaves_store (st : Store) (u old new : List Nat) (num : Nat)
+    (h : (step st (Op.chpw u old new num)).2 ≠ Out.ok) : (step st (Op.chpw u old new num)).1 = st := by
+  simp only [step] at h ⊢
+  cases hc : changePasswd st u old new num with
+  | error e => rfl
+  | ok r =>
+    obtain ⟨st', b⟩ := r
+    rw [hc] at h
+    cases b with
+    | true => simp at h
+    | false =>
+      unfold changePasswd at hc
+      cases hl : lookup st u with
+      | none => simp [hl, pure, Except.pure] at hc; exact hc.symm
+      | some g =>
+        simp only [hl] at hc
+        cases hck : CheckPasswd g old with
+        | error e => simp [hck, bind, Except.bind] at hc
+        | ok b2 =>
+          cases b2 with
+          | false => simp [hck, bind, Except.bind, pure, Except.pure] at hc; exact hc.symm
+          | true =>
+            cases hg : GenPasswdWith num new with
+            | error e => simp [hck, hg, bind, Except.bind, pure, Except.pure] at hc
+            | ok g' => simp [hck, hg, bind, Except.bind, pure, Except.pure] at hc
+
+/-- the broken rule, as a witness: a check that recovers from the panic of `Fcrypt` and falls through to "no error"
+accepts every candidate for a stored hash with a salt byte ≥ 0x80. -/
+theorem recovering_check_accepts_anything (pw : List Nat) :
+    let g := [200, 65, 65, 65, 65, 65, 65, 65, 65, 65, 65, 65, 65, 0]
+    CheckPasswd g pw = .error .panic ∧
+      (match CheckPasswd g pw with | .ok b => b | .error _ => true) = true := by
+  have : CheckPasswd [200, 65, 65, 65, 65, 65, 65, 65, 65, 65, 65, 65, 65, 0] pw = .error .panic := by
+    have hp : ∃ e, Fcrypt pw [200, 65, 65, 65, 65, 65, 65, 65, 65, 65, 65, 65, 65, 0] = .error e := by
+      rw [fcrypt_panics_iff]
+      rintro ⟨s0, s1, e0, _, l0, _⟩
+      simp at e0; subst e0
+      simp [saltChar] at l0
+    obtain ⟨e, he⟩ := hp
+    have := fcrypt_error_is_panic _ _ _ he
+    subst this
+    simp [CheckPasswd, he, bind, Except.bind]
+  exact ⟨this, by rw [this]⟩
+
+
 end PttVerif.C02.Props
